@@ -20,6 +20,8 @@ CLAIMED = {
              note='One-step (inductive) for IdSetDense: the representation invariant is "size = number of set bits, chunks allocated per skeleton"; production chunk size and the automatic GC trigger (>= 10000 removals) are outside.', ref='§2 C15'),
  'C20': dict(text='Bounded symbolic model checking of the dispatch code: apply()/apply_item() in ten configurations (const and non-const buffers, item ranges of all item types, one to three static handlers, lambdas with const/non-const signatures, DynamicHandler, ChainHandler, ItemIterator<OSMObject>) on buffers whose item types range over all 13 item types with symbolic removed flags, against a reference dispatch table (order of handlers, generic-then-specific callback, flush once per handler); DiffIterator on short histories with symbolic type and id.',
              note='io::InputIterator over a live Reader (threads) is outside; items are raw 64-byte headers since the callbacks under test only receive references.', ref='§2 C20'),
+ 'C17': dict(text='Bounded symbolic model checking of the geometry factory and the WKB encoder: GeometryFactory driven with a logging implementation and with the real WKBFactoryImpl (WKB/EWKB, binary/hex, read back by an independent reader) on ways and areas whose locations are symbolic (valid, undefined, out of range, runs of duplicates) for {all, unique} x {forward, backward}: emitted coordinates, order, duplicate suppression, ring grouping, back-patched counts and the error class equal the reference; double2string under the C11 contract of snprintf.',
+             note='Coordinates travel bit-for-bit through a projection that keeps the validity check of IdentityProjection (no floating point in the query); the decimal text of WKT/GeoJSON numbers depends on printf("%f") and is covered only through the snprintf contract model; Mercator projection is C18.', ref='§2 C17'),
 }
 NA = {
  'C19': 'The property is its schedule quantifier (lost wake-ups, FIFO under contention, exactly-once execution); bounded symbolic interleaving with cbmc did not finish a 2-thread toy monitor in 200 s here, and enumerating schedules would be a different technique family.',
